@@ -4,14 +4,17 @@
 # and stores patch + demo + meta.json under /verif/seeded/<label>/.
 id="$1"; x="$2"; label="$3"
 root=${SEEDROOT:-/tmp/seed}
-cd /verif
-v=$(SEEDROOT=$root tools/verify_seed.sh $id $x 2>/dev/null | tail -1)
+# LANE=<n>: evaluate in /tmp/lane<n>/{repo,verif} (tools/mklane.sh) instead of /repo and /verif
+V=/verif; R=/repo
+if [ -n "${LANE:-}" ]; then V=/tmp/lane$LANE/verif; R=/tmp/lane$LANE/repo; fi
+cd $V
+v=$(SEEDROOT=$root /verif/tools/verify_seed.sh $id $x 2>/dev/null | tail -1)
 echo "verify: $v"
 ok=$(echo "$v" | python3 -c "import json,sys; d=json.loads(sys.stdin.read()); print(int(d.get('applies_to_head') and d.get('demo_on_clean')=='pass' and d.get('demo_with_change')=='fail' and d.get('suite_with_change')=='pass'))")
 if [ "$ok" != 1 ]; then echo "SKIP $label (not a valid seed on HEAD)"; exit 0; fi
 patch=$root/$id/$x.patch.diff
-git -C /repo apply "$patch" || exit 3
-trap 'git -C /repo checkout -- . ; git -C /repo clean -fdq' EXIT
+git -C $R apply "$patch" || exit 3
+trap "git -C $R checkout -- . ; git -C $R clean -fdq" EXIT
 caught=""
 details=""
 run() {
@@ -27,8 +30,8 @@ if [ -z "$caught" ]; then
   for p in $(seq -w 1 20); do [ "C$p" != "$id" ] && run C$p quick; done
 fi
 if [ -z "$caught" ]; then run $id thorough; fi
-git -C /repo checkout -- . ; git -C /repo clean -fdq
-mkdir -p seeded/$label
+git -C $R checkout -- . ; git -C $R clean -fdq
+mkdir -p /verif/seeded/$label; cd /verif
 cp $patch seeded/$label/patch.diff
 cp $root/$id/$x.demo_test.go seeded/$label/demo_test.go 2>/dev/null
 cp $root/$id/$x.notes.md seeded/$label/notes.md 2>/dev/null
